@@ -34,12 +34,12 @@ StripCodeSepFrom(s, pc) ==
          ELSE (IF op.code = 171 THEN << >> ELSE SubSeq(s, pc, op.next - 1)) \o StripCodeSepFrom(s, op.next)
 StripCodeSep(s) == StripCodeSepFrom(s, 1)
 
-\* the script from just past the k-th OP_CODESEPARATOR occurrence (k = 0: the whole script)
+\* the script from just past the k-th OP_CODESEPARATOR occurrence (k = 0: the whole script); <<-1>> where the script has fewer
 RECURSIVE AfterCodeSepFrom(_, _, _)
 AfterCodeSepFrom(s, pc, k) ==
     IF k = 0 THEN SubSeq(s, pc, Len(s))
-    ELSE IF pc > Len(s) THEN <<"none">>
+    ELSE IF pc > Len(s) THEN <<-1>>
     ELSE LET op == GetOp(s, pc) IN
-         IF ~op.ok THEN <<"none">>
+         IF ~op.ok THEN <<-1>>
          ELSE AfterCodeSepFrom(s, op.next, IF op.code = 171 THEN k - 1 ELSE k)
 =============================================================================
